@@ -20,7 +20,7 @@ theorem hRead_pres {f : FsCfg} {I : World → Prop} (h : OpsPres f I) (hd : Hand
 
 theorem hSeekNoLock_pres {f : FsCfg} {I : World → Prop} (h : OpsPres f I) (hd : Handle) (o w : Int) : Pres I (hSeekNoLock f hd o w) := by
   have hs := h.stable
-  unfold hSeekNoLock startReader
+  unfold hSeekNoLock seekStart startReader
   repeat (first
     | with_reducible exact restoreContent_ro hs f _
     | with_reducible exact fetchedHeader_ro hs f _
